@@ -670,6 +670,7 @@ func (p *Prog) counterLoopBound(obj types.Object) ast.Expr {
 	}
 	if p.forPats == nil {
 		p.forPats = map[types.Object]ast.Expr{}
+		p.forPatsButLast = map[types.Object]ast.Expr{}
 		for _, fs := range p.productFuncs() {
 			info := fs.Pkg.TypesInfo
 			ast.Inspect(fs.Decl.Body, func(n ast.Node) bool {
@@ -805,6 +806,7 @@ func (p *Prog) counterLoopBound(obj types.Object) ast.Expr {
 					return nil, 0, false
 				}
 				var Y ast.Expr
+				butLast := false
 				switch {
 				case post.Tok == token.INC && (cond.Op == token.LSS || cond.Op == token.LEQ):
 					tv := info.Types[as.Rhs[0]]
@@ -822,6 +824,13 @@ func (p *Prog) counterLoopBound(obj types.Object) ast.Expr {
 					// the loop is the range over Y exactly when it visits every index
 					if (cond.Op == token.LSS && off == 0) || (cond.Op == token.LEQ && off == -1) {
 						Y = y
+					}
+					if (cond.Op == token.LSS && off == -1) || (cond.Op == token.LEQ && off == -2) {
+						// every index but the last
+						if k, _ := intConst(constTerm(tv.Value)); k == 0 {
+							Y = y
+							butLast = true
+						}
 					}
 				case post.Tok == token.DEC && cond.Op == token.GEQ:
 					if tv := info.Types[cond.Y]; tv.Value == nil || tv.Value.String() != "0" {
@@ -864,13 +873,24 @@ func (p *Prog) counterLoopBound(obj types.Object) ast.Expr {
 					return clean
 				})
 				if clean {
-					p.forPats[iv] = Y
+					if butLast {
+						p.forPatsButLast[iv] = Y
+					} else {
+						p.forPats[iv] = Y
+					}
 				}
 				return true
 			})
 		}
 	}
 	return p.forPats[obj]
+}
+
+// counterLoopButLast: obj is the counter of `for i := 0; i < len(Y)-1; i++`
+// (bound possibly held in a local defined once); returns Y.
+func (p *Prog) counterLoopButLast(obj types.Object) ast.Expr {
+	p.counterLoopBound(obj)
+	return p.forPatsButLast[obj]
 }
 
 // pureChain: identifiers and field selections only.
@@ -1165,7 +1185,7 @@ func checkC09(c *Check) {
 		c.add("O-C09.2", s.kind+" "+types.ExprString(s.expr)+" in "+fn, what+": "+s.how, s.done, c.P.pos(s.pos), det...)
 	}
 	c.floor("index expressions in product code", 25, counts["index"])
-	c.floor("slice expressions in product code", 2, counts["slice"])
+	c.floor("slice expressions in product code", 1, counts["slice"])
 	c.floor("single-value type assertions in product code", 3, counts["assert1"])
 	// deref obligations
 	var keys []string
@@ -1442,10 +1462,8 @@ func goroutineRecover(c *Check) {
 				if !ok {
 					break
 				}
-				if dl, ok := ast.Unparen(d.Call.Fun).(*ast.FuncLit); ok {
-					if o := recoverForward(dl, info); o != nil {
-						ch = o
-					}
+				if o := deferredRecover(c.P, d, info); o != nil {
+					ch = o
 				}
 			}
 			c.add("O-C09.3", "goroutine in "+name+" recovers and forwards", "before any other statement the goroutine defers a literal that calls recover() and sends a non-nil value on a channel (a panic in the goroutine cannot kill the process)", ch != nil, where)
